@@ -13,6 +13,7 @@ CONSTANTS
   HydCounts = {1, 7}
   ChargeToks <- Q_Few
   PrefixSet = {}
+  MaxPrefixes = 1
   SuffixSet = {}
   PrimeMarks = {}
   MaxPrimes = 0
